@@ -20,6 +20,7 @@ pub const CLASS_UPD: &str = "update_reads_assigned_column";
 
 pub const CLASS_UNZIP: &str = "update_if_partial_schema_panics";
 pub const CLASS_KEYPOS: &str = "key_columns_not_first";
+pub const CLASS_IDXDUP: &str = "indexed_join_sees_moved_rows_twice";
 pub const CLASS_ROWID: &str = "stable_row_id_index_overlap";
 
 /// F18 (C34 class rowid_index_overlapping_ranges) seen through C12's operations: with stable row ids,
@@ -54,6 +55,11 @@ pub async fn delete_case(sink: &mut Sink, stream: &mut Stream, t: &mut Tbl, ti: 
     };
     let mut case = case;
     case["after"] = obs.json();
+    let mut obs = obs;
+    if std::env::var("VERIF_C12_SANITY").as_deref() == Ok("1") && tag == "special-rowid-1" {
+        // mandatory sanity test of the check: pretend the implementation also deleted the first remaining row
+        obs.rows.remove(0);
+    }
     stream.push(format!("({}, ({}, {}))", coq_layout(before), coq_b(p), coq_b(cf)), obs.coq(0), case.clone());
     sink.count(tag);
     sink.nontrivial(&format!("d{}{}", coq_layout(before), p_sql));
@@ -366,6 +372,9 @@ pub async fn merge_case(
 ) -> Option<Result<(Obs, (u64, u64, u64)), u8>> {
     let live = live_rows(before);
     let cf_sql = sql_b(cf, &names_plain);
+    // stable row ids + indexed join + rows re-written since the index was built: the index still answers with the
+    // (stable) ids of the moved rows and the scan of the unindexed fragments returns the same rows again
+    let idxdup = t.stable && st.indexed && matches!(st.ns, Ns::Keep) && !st.fast_path() && t.moved_after_index;
     let desc = format!(
         "merge_insert on {:?} source columns {:?} {} indexed={} use_index={} update_if={} delete_if={} source {}",
         st.on,
@@ -429,7 +438,10 @@ pub async fn merge_case(
     };
     // with a partial source schema the rows the Merger misclassifies are rewritten in place by row address;
     // that part of the class is not modelled
-    let modelled = !(known_key_cols_not_first(st) && !st.full());
+    let modelled = !(known_key_cols_not_first(st) && !st.full()) && !idxdup;
+    if idxdup {
+        sink.count("merge-in-class-not-modelled(indexed join sees moved rows twice)");
+    }
     if modelled {
         stream.push(coq_in, coq_out, case.clone());
     } else {
@@ -480,7 +492,9 @@ pub async fn merge_case(
     } else if agree {
         sink.oracle_ok();
     } else {
-        let class = if known_update_if_partial(st) {
+        let class = if idxdup {
+            Some(CLASS_IDXDUP)
+        } else if known_update_if_partial(st) {
             Some(CLASS_UNZIP)
         } else if known_key_cols_not_first(st) {
             Some(CLASS_KEYPOS)
@@ -515,7 +529,7 @@ pub async fn merge_case(
         .await;
         let other: Option<Result<(Vec<Row>, (u64, u64, u64)), u8>> = match r {
             Ok(Ok((ds, stats))) => {
-                let t2 = Tbl { dir: tempfile::tempdir().unwrap(), uri: String::new(), ds, tys: t.tys.clone(), stable: t.stable, index_on0: true };
+                let t2 = Tbl { dir: tempfile::tempdir().unwrap(), uri: String::new(), ds, tys: t.tys.clone(), stable: t.stable, index_on0: true, moved_after_index: false };
                 t2.observe(&cf_sql).await.ok().map(|o| Ok((o.rows, stats)))
             }
             Ok(Err((c, _))) => Some(Err(c)),
@@ -530,7 +544,7 @@ pub async fn merge_case(
         if same {
             sink.oracle_ok();
         } else {
-            let class = if known_update_if_partial(st) { Some(CLASS_UNZIP) } else if known_key_cols_not_first(st) { Some(CLASS_KEYPOS) } else if known_fail_off_fast_path(st) { Some(CLASS_FAIL) } else { None };
+            let class = if idxdup { Some(CLASS_IDXDUP) } else if known_update_if_partial(st) { Some(CLASS_UNZIP) } else if known_key_cols_not_first(st) { Some(CLASS_KEYPOS) } else if known_fail_off_fast_path(st) { Some(CLASS_FAIL) } else { None };
             case["unindexed"] = json!(format!("{:?}", other.map(|x| x.map(|(r, s)| (fmt_rows(&sort_rows(r)), s)))));
             sink.oracle_fail(class, "merge_insert: indexed and unindexed join paths disagree", case);
         }
